@@ -26,6 +26,8 @@ claimed={
         "sequential histories; provider idempotent on UnAssign of an unheld IP"),
  'C11':("model_checking","symbolic execution with genuinely symbolic strings (cvc5 string theory; unbounded names over the DNS-1123 alphabets): FormatKey injectivity for two arbitrary pods, FormatKey/ParseKey round trip, list (real convert) -> post back (real ReleaseIPs handler) reaches the stored key; paging partition and clamping laws on 64-bit integers (z3)",
         "owner kinds range over a finite family (cvc5 does not decide str.to_lower on a symbolic kind in time); page size over {1,2,3,10,100,9999} (symbolic x symbolic 64-bit mul/div did not finish in any solver); go-restful request/response replaced by a recording model, strconv.Atoi of a symbolic string modelled as an arbitrary outcome; sorting by IP not covered"),
+ 'C17':("model_checking","shouldCleanup and the file collectors (cleanupGCDirs, cleanupIP) executed symbolically against an arbitrary runtime answer per container (inspect outcome, docker state/status, CRI sandbox state, pod existence and container states all symbolic) for both runtimes: state is removed iff the container is gone or exited, never on a runtime error, foreign files and directories are kept, one round suffices",
+        "docker HTTP client and grpc replaced (engine: DockerInspectContainer intercepted by a harness model, grpc status modelled; native replay: httptest docker daemon, fake CRI client); os/ioutil calls run on an in-memory file system in the engine and on a temp dir natively; veth cleanup (netlink) not covered; Remove failures not injected"),
  'C04':("model_checking","bounded histories of the real plugin (Filter, Bind, unbind, resyncPod, Release) over fakes of the API server: re-incarnation scenario with symbolic policy, event order, lister lag; after every step every live bound pod must still own its IP (solver decides every symbolic branch; counterexamples replayed natively)",
         "bounds: see evidence bounds; sequential histories (event orders, lags) only - no thread interleavings; fakes of API server/listers trusted"),
 }
